@@ -265,6 +265,14 @@ class _Ufunc(Contract):
                  z3.Implies(sz > 1, z3.BoolVal(not isq)))]
 
 
+def complex_kept(it):
+    """C17 'complex data stay complex': on this path no array was cast from a complex to a real dtype (NumPy
+    drops the imaginary parts with a ComplexWarning); ghost events of the cast model"""
+    drops = [e[3] for e in it.ctx.events if e[0] == "cast"]
+    return ("C17: complex data stay complex: nothing is cast from a complex to a real dtype on the way",
+            z3.Not(z3.Or(*drops)) if drops else True)
+
+
 class _A:
     pass
 
@@ -382,7 +390,8 @@ class _Additive(_Commensurable):
                 z3.Implies(self.exact_case(it, a), law)),
                self.label_post(it, a, ru),
                ("C17: the result of a rescaling operation is floating point or complex",
-                z3.Implies(self.rescaled(it, a), z3.Not(N.is_int_kind(N.arr_kind(r)))))]
+                z3.Implies(self.rescaled(it, a), z3.Not(N.is_int_kind(N.arr_kind(r))))),
+               complex_kept(it)]
         return out + self.frames(a, old) + self.class_post(it, r) + self.out_post(it, a, r)
 
     def canary(self, it, a, r, old):
@@ -413,7 +422,7 @@ class _Homogeneous(_Commensurable):
         law = S.SI(N.arr_elem(r), ru, P) == fn(si0, si1)
         out = [(self.law_tag() + ": SI(result) == %s(SI(a), SI(b))" % self.ufunc,
                 z3.Implies(z3.And(self.exact_case(it, a), z3.Not(z0), z3.Not(z1)), law)),
-               self.label_post(it, a, ru)]
+               self.label_post(it, a, ru), complex_kept(it)]
         return out + self.frames(a, old) + self.class_post(it, r) + self.out_post(it, a, r)
 
     def canary(self, it, a, r, old):
@@ -469,7 +478,7 @@ class _Comparison(_Commensurable):
                               z3.Not(self.either_dimensionless(a)))
             out.append(("C01: == answers all-False and != all-True for different dimensions",
                         z3.Implies(mismatch, elem == (0 if self.ufunc == "equal" else 1))))
-        return out + self.frames(a, old) + self.out_post(it, a, r)
+        return out + [complex_kept(it)] + self.frames(a, old) + self.out_post(it, a, r)
 
     def canary(self, it, a, r, old):
         if N.is_array(r):
